@@ -31,9 +31,19 @@ def syndrome_zero(I: Interp, H, word) -> bool:
     return True
 
 
+class Misbehaves(Exception):
+    """the analysed composition provably fails for some inputs (not an analysis limit)"""
+
+
 def single_path(I: Interp, fn, what: str):
     """run fn(st) expecting exactly one successful path"""
+    from .bitabs import PartialRaise
     res = explore(fn)
+    for st, (k, v) in res:
+        if k == "abort" and isinstance(v, PartialRaise):
+            raise Misbehaves(f"{what}: {v}")
+        if k == "raise":
+            raise Misbehaves(f"{what}: raises {v} for every input on path {st.labels}")
     oks = [(st, v) for st, (k, v) in res if k == "ok"]
     bad = [(st, v) for st, (k, v) in res if k != "ok"]
     if len(oks) != 1 or bad:
